@@ -219,7 +219,8 @@ class Runner:
                     ct_ = (r_.header("Content-Type") or "").split(";")[0]
                     if st_ == 200 and ct_ != W.CT[kind]:
                         # the server itself does not regard the member as being of this kind
-                        self.viol(f"member-typed-{ct_}-by-server/{feature(ref[1])}-name/answered-{outcome}", f"multiget: live member {ref!r} (uploaded as {W.CT[kind]}) is served as {ct_!r} and answered {outcome}")
+                        ncls = "name-with-colon-before-extension-dot" if re.search(r":\.[A-Za-z0-9]+$", ref[1]) else feature(ref[1]) + "-name"
+                        self.viol(f"member-typed-{ct_}-by-server/{ncls}/answered-{outcome}", f"multiget: live member {ref!r} (uploaded as {W.CT[kind]}) is served as {ct_!r} and answered {outcome}")
                     else:
                         self.viol(f"{self.where()}/{kind}/{c}/existing-resource-answered-{outcome}", f"multiget {hrefs!r}: href {h!r} ({c}) addresses live member {ref!r} but was answered {outcome}")
                     continue
